@@ -12,6 +12,7 @@ import (
 	"fmt"
 	"io"
 	"log"
+	"net"
 	"net/http"
 	"net/http/httptest"
 	"reflect"
@@ -44,8 +45,8 @@ type kitOpts struct {
 type stub struct {
 	name          string
 	host          string
-	mode          string // ok, 404, 500, refuse, abort
-	probeMode     string // ok, 500, refuse
+	mode          string // ok, 404, 500, refuse, garbage, eof, timeout, abort
+	probeMode     string // ok, 500, refuse, garbage, eof, timeout, hang
 	hits          int    // requests actually sent to this backend (client traffic)
 	probes        int    // probes actually sent
 	releaseProbes bool   // ends hanging probes
@@ -64,7 +65,42 @@ type kit struct {
 	reqSeq int
 }
 
-var errRefused = errors.New("dial tcp: connection refused (scripted)")
+// Transport errors with the dynamic types a real http.Transport produces: code that inspects
+// the error (type assertions, errors.As, Timeout()) must see the same shapes as in production.
+var (
+	// refused connection: *net.OpError (a net.Error, not a timeout)
+	errRefused error = &net.OpError{Op: "dial", Net: "tcp", Addr: &net.TCPAddr{IP: net.IPv4(10, 255, 0, 1), Port: 80}, Err: errors.New("connect: connection refused (scripted)")}
+	// the peer answers with bytes that are not HTTP: a plain error value, not a net.Error
+	errGarbage = errors.New("net/http: HTTP/1.x transport connection broken: malformed HTTP response \"\\x16\\x03\\x01\" (scripted)")
+	// the peer closes before sending anything: io.EOF as the transport returns it
+	errEarlyEOF = io.EOF
+	// response-header timeout: a net.Error whose Timeout() is true
+	errTimeout error = scriptedTimeout{}
+)
+
+type scriptedTimeout struct{}
+
+func (scriptedTimeout) Error() string {
+	return "net/http: timeout awaiting response headers (scripted)"
+}
+func (scriptedTimeout) Timeout() bool   { return true }
+func (scriptedTimeout) Temporary() bool { return true }
+
+// transportFault maps a scripted fault mode to the transport error it stands for (nil: not a
+// transport-level fault).
+func transportFault(mode string) error {
+	switch mode {
+	case "refuse":
+		return errRefused
+	case "garbage":
+		return errGarbage
+	case "eof":
+		return errEarlyEOF
+	case "timeout":
+		return errTimeout
+	}
+	return nil
+}
 
 type failingBody struct {
 	data []byte
@@ -105,6 +141,9 @@ func (rt *stubRT) RoundTrip(req *http.Request) (*http.Response, error) {
 	}
 	// like http.Transport: a cancelled context fails the round trip before anything is sent
 	if err := req.Context().Err(); err != nil {
+		if !rt.probe {
+			st.hits++ // a dispatch to this backend all the same (like a refused connection)
+		}
 		return nil, err
 	}
 	if rt.probe {
@@ -127,11 +166,11 @@ func (rt *stubRT) RoundTrip(req *http.Request) (*http.Response, error) {
 			}
 			return mkResp(req, 200, "late"), nil
 		}
-		switch st.probeMode {
-		case "500":
+		if st.probeMode == "500" {
 			return mkResp(req, 500, "probe fail"), nil
-		case "refuse":
-			return nil, errRefused
+		}
+		if err := transportFault(st.probeMode); err != nil {
+			return nil, err
 		}
 		return mkResp(req, 200, "healthy"), nil
 	}
@@ -153,8 +192,8 @@ func (rt *stubRT) RoundTrip(req *http.Request) (*http.Response, error) {
 		return mkResp(req, 404, "not found"), nil
 	case "500":
 		return mkResp(req, 500, "backend error"), nil
-	case "refuse":
-		return nil, errRefused
+	case "refuse", "garbage", "eof", "timeout":
+		return nil, transportFault(mode)
 	case "abort":
 		r := mkResp(req, 200, "")
 		r.ContentLength = 100
@@ -298,6 +337,14 @@ func (k *kit) requestWith(client string, h http.Handler, edit func(*http.Request
 // (concurrent scenarios): the mode travels in a request header the stub honours.
 func (k *kit) requestMode(client, mode string) reqResult {
 	return k.requestWith(client, nil, func(r *http.Request) { r.Header.Set("X-Verif-Mode", mode) })
+}
+
+func (k *kit) requestCancelled(client string) reqResult {
+	return k.requestWith(client, nil, func(r *http.Request) {
+		ctx, cancel := context.WithCancel(r.Context())
+		cancel()
+		*r = *r.WithContext(ctx)
+	})
 }
 
 // held is a client request kept in flight at its backend until released.
